@@ -33,7 +33,7 @@ Definition wire_eqb (x y : wire) : bool :=
 Definition outcome_eqb (x y : outcome) : bool :=
   match x, y with
   | OFail, OFail => true
-  | OSent a t w, OSent a' t' w' => str_eqb a a' && Bool.eqb t t' && wire_eqb w w'
+  | OSent a t w n, OSent a' t' w' n' => str_eqb a a' && Bool.eqb t t' && wire_eqb w w' && str_eqb n n'
   | _, _ => false
   end.
 
@@ -121,12 +121,12 @@ Definition fcase_prop_ok (c : fcase) : bool :=
 (* ---------- E: the real proxy in-process with scripted parties *)
 (* what was seen for one request: every address handed to the dialer (after connect-to), and what the
    party that accepted the connection saw first: TLS or not, then which protocol *)
-Record obs := { o_dials : list str; o_recv : option (str * bool * wire); o_ok : bool (* client got 2xx *) }.
+Record obs := { o_dials : list str; o_recv : option (str * bool * wire * str); o_ok : bool (* client got 2xx *) }.
 
 Definition event_eqb (x y : event) : bool :=
   match x, y with
   | EvDial a, EvDial c => str_eqb a c
-  | EvUse a t w, EvUse c t' w' => str_eqb a c && Bool.eqb t t' && wire_eqb w w'
+  | EvUse a t w n, EvUse c t' w' n' => str_eqb a c && Bool.eqb t t' && wire_eqb w w' && str_eqb n n'
   | _, _ => false
   end.
 Fixpoint events_eqb (x y : list event) : bool :=
@@ -138,7 +138,7 @@ Fixpoint events_eqb (x y : list event) : bool :=
 
 (* the observed trace: every address handed to the socket layer, then the party that received data *)
 Definition obs_trace (o : obs) : list event :=
-  map EvDial (o_dials o) ++ match o_recv o with Some (a, tls, w) => [EvUse a tls w] | None => [] end.
+  map EvDial (o_dials o) ++ match o_recv o with Some (a, tls, w, n) => [EvUse a tls w n] | None => [] end.
 (* the client sees success exactly when some party was used *)
 Definition obs_consistent (o : obs) : bool :=
   Bool.eqb (o_ok o) (match o_recv o with Some _ => true | None => false end).
@@ -148,7 +148,7 @@ Definition obs_is (o : obs) (tr : list event) : bool := events_eqb (obs_trace o)
 Definition obs_first_hop (o : obs) : option (option (str * bool * role)) :=
   match o_dials o, o_recv o with
   | [], None => Some None
-  | _, Some (a, tls, w) => Some (first_hop (OSent a tls w))
+  | _, Some (a, tls, w, n) => Some (first_hop (OSent a tls w n))
   | _, _ => None
   end.
 
